@@ -1,4 +1,4 @@
-\* as-is: OPN response popped, opener times out, dispatcher locks the gate afterwards -> InvGateOwned
+\* demo (repaired in a6d06b1): OPN response popped, opener times out, dispatcher locks the gate afterwards -> InvGateOwned
 CONSTANTS
   Callers = {1}
   MaxCalls = 1
@@ -12,6 +12,7 @@ CONSTANTS
   T = 2
   MaxTime = 0
   EarlyCancel = FALSE
+  NoTimeouts = FALSE
   Mode = "mc"
   SymBreak = FALSE
   Dev_OpnTimeoutWedge = TRUE
